@@ -1067,4 +1067,58 @@ theorem mem_knownAnswers {c : Cache} {now : Int} {name : String} {ty : Nat} {r :
   obtain ⟨m1, m2, m3, m4⟩ := (mem_getAll lower).mp hr.1
   exact ⟨m1, m2, m3, m4, by simpa using hr.2⟩
 
+/-! ### the start block -/
+
+theorem start_info (s : Req) (now : Int) (c : Cache) (h : Hist) (d : Int) (s' : Req) (o : Out)
+    (hs : step lower s (.start now c h d) = some (s', o)) : o.info = (loadFromCache lower c s.info now).1 := by
+  simp only [step] at hs
+  split at hs
+  · exact absurd hs (by simp)
+  · split at hs
+    · simp only [Option.some.injEq, Prod.mk.injEq] at hs
+      rw [← hs.2]
+    · simp only [Option.some.injEq] at hs
+      have h1 := iter_info lower (s.armed (loadFromCache lower c s.info now).1 now) now c h d
+      rw [hs] at h1
+      exact h1.2
+
+theorem step_start_complete (s : Req) (now : Int) (c : Cache) (h : Hist) (d : Int) (hidle : s.phase = .idle)
+    (hd : drawOk d = true) (hc : (loadFromCache lower c s.info now).2 = true) :
+    step lower s (.start now c h d) =
+      some ({ s with info := (loadFromCache lower c s.info now).1, clock := now, phase := .done true },
+            { ret := some true, info := (loadFromCache lower c s.info now).1 }) := by
+  simp [step, hidle, hd, hc]
+
+/-! ### a QU query -/
+
+theorem genQuery_qu_a (c : Cache) (h : Hist) (now : Int) (i : Info) :
+    (({ name := i.serverOrName, type := Gen.typeA, class_ := Gen.classIn, unique := true } : Question),
+      knownAnswers lower c now i.serverOrName Gen.typeA) ∈ genQuery lower c h now i true := by
+  apply (mem_genQuery lower).mpr
+  right; right; left
+  rw [addQuestion_qu]
+  simp
+
+theorem genQuery_qu_aaaa (c : Cache) (h : Hist) (now : Int) (i : Info) :
+    (({ name := i.serverOrName, type := Gen.typeAaaa, class_ := Gen.classIn, unique := true } : Question),
+      knownAnswers lower c now i.serverOrName Gen.typeAaaa) ∈ genQuery lower c h now i true := by
+  apply (mem_genQuery lower).mpr
+  right; right; right
+  rw [addQuestion_qu]
+  simp
+
+theorem genQuery_qu_srv (c : Cache) (h : Hist) (now : Int) (i : Info) (hnil : knownAnswers lower c now i.name Gen.typeSrv = []) :
+    (({ name := i.name, type := Gen.typeSrv, class_ := Gen.classIn, unique := true } : Question), []) ∈ genQuery lower c h now i true := by
+  apply (mem_genQuery lower).mpr
+  left
+  rw [addQuestion_qu, hnil]
+  simp
+
+theorem genQuery_qu_txt (c : Cache) (h : Hist) (now : Int) (i : Info) (hnil : knownAnswers lower c now i.name Gen.typeTxt = []) :
+    (({ name := i.name, type := Gen.typeTxt, class_ := Gen.classIn, unique := true } : Question), []) ∈ genQuery lower c h now i true := by
+  apply (mem_genQuery lower).mpr
+  right; left
+  rw [addQuestion_qu, hnil]
+  simp
+
 end Zc.Lookup
